@@ -9,6 +9,7 @@ import (
 
 	"github.com/GuanceCloud/platypus/pkg/errchain"
 
+	"verif/mc/internal/drv"
 	"verif/mc/internal/ref"
 	"verif/mc/internal/rt"
 	"verif/mc/internal/run"
@@ -19,6 +20,7 @@ import (
 type c13Case struct {
 	Scripts map[string]string `json:"scripts"`
 	Main    string            `json:"main"`
+	Second  map[string]string `json:"second_set,omitempty"` // two-deployments part: the set loaded afterwards
 }
 
 func c13Point() PointSpec {
@@ -240,6 +242,52 @@ func c13Run(w *run.Worker) {
 			}
 		}
 	}
+	// two deployments: a later load of a set with the same caller text and another callee
+	// must not change what the earlier load's caller runs
+	mkSet := func(b []*rt.Node, viaB bool) *Prog {
+		sc := map[string][]*rt.Node{"a.p": {rt.Call("p", I(1)), rt.Call("use", rt.Str("b.p")), tail()}, "b.p": append(b, tail()), "c.p": trivial()}
+		if viaB {
+			// a -> b -> c with only c different
+			sc["b.p"] = []*rt.Node{rt.Call("use", rt.Str("c.p")), tail()}
+			sc["c.p"] = append(b, tail())
+		}
+		return &Prog{Scripts: sc, Main: "a.p", Point: c13Point()}
+	}
+	for ib := int64(0); ib < fb.N; ib++ {
+		for _, viaB := range []bool{false, true} {
+			if !w.Take() {
+				continue
+			}
+			if viaB && usesScript(asNodes(fb.At(ib)), "c.p") {
+				continue
+			}
+			p1 := mkSet(asNodes(fb.At(ib)), viaB)
+			p2 := mkSet(asNodes(fb.At((ib+1)%fb.N)), viaB)
+			if viaB && usesScript(p2.Scripts["c.p"], "c.p") {
+				p2 = mkSet(trivial(), viaB)
+			}
+			w.Eval()
+			v1 := Differential(p1)
+			if !v1.OK || v1.Skipped != "" {
+				continue // reported by the tree part
+			}
+			l1, e1 := drv.Load(p1.Sources())
+			_, _ = drv.Load(p2.Sources())
+			if len(e1) > 0 {
+				continue
+			}
+			res := drv.Run(l1["a.p"], p1.Point.real().Build(), &drv.Sig{FireAt: realPollCap})
+			w.Eval()
+			got := strings.Join(res.Trace, ";") + "|" + res.Point + "|" + fmt.Sprint(res.Err != nil)
+			want := strings.Join(v1.Real.Trace, ";") + "|" + v1.Real.Point + "|" + fmt.Sprint(v1.Real.Err != nil)
+			w.Outcome("two-sets|" + got)
+			if got != want || res.Panic != "" {
+				w.Violate("C13:two-deployments:earlier-load-runs-differently-after-a-later-load",
+					fmt.Sprintf("first set, run alone: %s\nfirst set, run after a second set was loaded: %s %s\nfirst set:\n%ssecond set:\n%s", want, got, res.Panic, fmtScripts(p1.Sources()), fmtScripts(p2.Sources())),
+					c13Case{Scripts: p1.Sources(), Main: "a.p", Second: p2.Sources()})
+			}
+		}
+	}
 	// extended alphabet: exit() / raise in the clauses of a three-clause for
 	exit := func() *rt.Node { return rt.Call("exit") }
 	raise := func() *rt.Node { return rt.Call("p", rt.Bin("/", I(1), Id("z"))) }
@@ -278,6 +326,18 @@ func c13Replay(raw json.RawMessage) (bool, string) {
 	var c c13Case
 	if err := json.Unmarshal(raw, &c); err != nil {
 		return false, err.Error()
+	}
+	if c.Second != nil {
+		l1, e1 := drv.Load(c.Scripts)
+		if len(e1) > 0 {
+			return false, fmt.Sprint(e1)
+		}
+		alone := drv.Run(l1[c.Main], c13Point().real().Build(), &drv.Sig{FireAt: realPollCap})
+		l1, _ = drv.Load(c.Scripts)
+		_, _ = drv.Load(c.Second)
+		after := drv.Run(l1[c.Main], c13Point().real().Build(), &drv.Sig{FireAt: realPollCap})
+		a, b := fmt.Sprint(alone.Trace, alone.Point, alone.Err), fmt.Sprint(after.Trace, after.Point, after.Err)
+		return a != b, "alone: " + a + "\nafter the second load: " + b
 	}
 	p := &Prog{Scripts: map[string][]*rt.Node{}, Main: c.Main, Point: c13Point()}
 	for name, src := range c.Scripts {
